@@ -2,6 +2,7 @@ import json, os, subprocess, time
 import vlib
 
 ASSUME = [
+    'peer side (TestVerifC19Status): the measurement model assumes that a peer reads its clock while it serves the request; the real status handler (GET / with Accept: application/json on an in-process node) is asked 22 times back to back and with pauses of 1 ms .. 1.1 s, and CurrentTime must lie between the start and the end of its own request (wall-clock readings of one process)',
     'a measurement is (local Start=T, peer reads its clock T+d1+delta when answering, local End=T+d1+d2); delays are non-negative and the clocks do not step during one measurement',
     'grid bounds: delta in [-4s,+4s] (step 50ms quick / 10ms thorough) plus 0, +-1ns, +-2s, +-2s+-1ns; d1,d2 in {0,1ns,1ms,100ms,999ms,1s,1999ms,2s,3s}; 0..3 peers; '
     'one peer: full grid; two peers: all ordered pairs over the full delay grid x a reduced offset set of 25 values (thorough: the 50ms offset grid); three peers: all ordered triples of a smaller sub-grid (11 offsets quick / 25 thorough x 4 delays each way)',
@@ -21,7 +22,9 @@ def _build():
 
 
 def prebuild():
+    import apidrive
     _build()
+    apidrive.build()
 
 
 def run(tier):
@@ -78,6 +81,16 @@ def run(tier):
                               'refusals_of_an_all_good_network': sum(r['refusals_of_an_all_good_network'] for r in rn), 'outcomes': outcomes,
                               'samples': sum([r.get('samples') or [] for r in rn], [])[:3]}
     cov['evaluations'] += cov['collection_tier']['cases']
+    # peer side: the real status handler must report a clock reading taken while serving the request
+    import apidrive
+    rp = vlib.run_workers(apidrive.build(), 'TestVerifC19Status', 1, env={'GOMAXPROCS': '2'})
+    for r in rp:
+        if r.get('harness_error'):
+            print('HARNESS-ERROR: ' + r['harness_error']); raise SystemExit(3)
+        for v in r.get('violations') or []:
+            if v['sig'] not in bysig:
+                bysig[v['sig']] = v
+    cov['peer_side'] = {'status_requests': sum(r.get('ops', 0) for r in rp)}
     vlib.finish('C19', tier, 'exploration', cov, list(bysig.values()), t0, assumptions=ASSUME)
 
 
